@@ -31,27 +31,41 @@ def _same_parent_cond(ctx: Ctx, f: Func) -> Optional[ast.AST]:
 
 
 def _before_table(ctx: Ctx, f: Func) -> Dict[str, str]:
-    """The dispatch on `before` that links the new node: case -> action."""
+    """The dispatch on `before` that links the new node: case -> canonical
+    action (locals abstracted: L = the child list, node = the new node)."""
+    from ..pat import find, has, match, one
+
     chain = None
     for n in iter_own(f.node):
-        if isinstance(n, ast.If) and norm(n.test).endswith("is None") and any(
-            isinstance(x, ast.Assign) and "._children = [" in norm(x) for st in n.body for x in ast.walk(st)
-        ):
-            chain = _if_chain(n)
+        if isinstance(n, ast.If):
+            e = match("$L is None", n.test)
+            if e is not None and has("self._children = [$node]", n.body):
+                chain = _if_chain(n)
+                L = e["$L"]
+                node = one("self._children = [$node]", n.body)[1]["$node"]
     if chain is None:
         raise AnalysisError(f"{f.qualname}: position dispatch not recognised")
-    lst = norm(chain[0][0]).split(" is None")[0]
+    B = {"$L": L, "$node": node}
     table: Dict[str, str] = {}
     for test, body in chain:
-        key = "else" if test is None else _rename(norm(test), {lst: "L"})
-        acts = [norm(st) for st in body if not isinstance(st, ast.Assert)]
-        # the if-raise validation inside the node case is not part of the action
-        acts = [a for a in acts if not a.startswith("if ")]
-        table[key] = _rename("; ".join(acts), {lst: "L"})
-    # normalisation `if before is True: before = 0` ahead of the chain
-    for n in iter_own(f.node):
-        if isinstance(n, ast.If) and norm(n.test) == "before is True" and len(n.body) == 1 and norm(n.body[0]) == "before = 0":
-            table.setdefault("before is True", "L.insert(0, node)")
+        key = "else" if test is None else _rename(norm(test), {L: "L"})
+        stm = [st for st in body if not isinstance(st, (ast.Assert, ast.If))]
+        act = "?"
+        if len(stm) == 1 and match("self._children = [$node]", stm[0], B) is not None:
+            act = "self._children = [node]"
+        elif len(stm) == 1 and match("$L.insert(0, $node)", stm[0], B) is not None:
+            act = "L.insert(0, node)"
+        elif len(stm) == 1 and match("$L.insert(before, $node)", stm[0], B) is not None:
+            act = "L.insert(before, node)"
+        elif len(stm) == 1 and match("$L.append($node)", stm[0], B) is not None:
+            act = "L.append(node)"
+        elif len(stm) == 2:
+            e = match("$i = _index_of($L, before)", stm[0], B) or match("$i = $L.index(before)", stm[0], B)
+            if e is not None and match("$L.insert($i, $node)", stm[1], e) is not None:
+                act = "idx = position of before in L; L.insert(idx, node)"
+        table[key] = act
+    if has("if before is True:\n    before = 0", f.node):
+        table.setdefault("before is True", "L.insert(0, node)")
     return table
 
 
@@ -78,7 +92,7 @@ def sib_add(ctx: Ctx) -> List[Ob]:
         "L is None": "self._children = [node]",
         "before is True": "L.insert(0, node)",
         "isinstance(before, int)": "L.insert(before, node)",
-        "before": "idx = L.index(before); L.insert(idx, node)",
+        "before": "idx = position of before in L; L.insert(idx, node)",
         "else": "L.append(node)",
     }
     for f in (fa, fb):
@@ -86,9 +100,6 @@ def sib_add(ctx: Ctx) -> List[Ob]:
         for case, act in want.items():
             got = tb.get(case)
             ok = got == act
-            if case == "before" and got is not None and not ok:
-                # identity form of the position lookup is also accepted
-                ok = got.endswith("L.insert(idx, node)") and "before" in got
             obs.append(ctx.ob("SIB-ADD", ["C04"], f, f"position `{case}` -> {act}", None, ok,
                               "" if ok else f"got `{got}`: the new node does not land at the documented place"))
         extra = set(tb) - set(want)
@@ -135,43 +146,53 @@ def _verdict_branches(ctx: Ctx, f: Func, loop: ast.For) -> Dict[str, List[ast.st
     return out
 
 
-def _flags_inplace(body: List[ast.stmt], lv: str) -> Set[str]:
+def _flags_inplace(body: List[ast.stmt], lv: str, N: Dict[str, str]) -> Set[str]:
+    """N: names of the in-place helper: rec (recursive function), keep (the
+    returned flag), acc (the deferred-removal list)."""
+    from ..pat import has, match
+
+    rec, keep, acc = N["rec"], N["keep"], N["acc"]
     fl: Set[str] = set()
     for st in body:
-        t = norm(st)
-        if t == "must_keep = True":
+        if match(f"{keep} = True", st) is not None:
             fl.add("keeps_self")
-        if isinstance(st, ast.Expr) and t == f"_visit({lv})":
+        if match(f"{rec}({lv})", st) is not None:
             fl.add("descends")
-        if isinstance(st, ast.If) and norm(st.test) == f"_visit({lv})":
+        if isinstance(st, ast.If) and match(f"{rec}({lv})", st.test) is not None:
             fl.add("descends")
-            if any(norm(s) == "must_keep = True" for s in st.body) and any(norm(s) == f"remove_nodes.append({lv})" for s in st.orelse):
+            if any(match(f"{keep} = True", x) is not None for x in st.body) and any(match(f"{acc}.append({lv})", x) is not None for x in st.orelse):
                 fl.add("keeps_if_descendant")
-        if t == f"remove_nodes.append({lv})":
+        if match(f"{acc}.append({lv})", st) is not None:
             fl.add("drops_self")
-        if t in (f"remove_nodes.extend({lv}.children)", f"remove_nodes += {lv}.children", f"remove_nodes.extend({lv}._children or ())",
-                 f"remove_nodes.extend({lv}.children.copy())", f"remove_nodes.extend(list({lv}.children))"):
+        if any(match(p_, st) is not None for p_ in (f"{acc}.extend({lv}.children)", f"{acc} += {lv}.children", f"{acc}.extend({lv}._children or ())",
+                                                     f"{acc}.extend({lv}.children.copy())", f"{acc}.extend(list({lv}.children))")):
             fl.add("drops_children")
-        if t == f"remove_nodes = {lv}.children":
+        if match(f"{acc} = {lv}.children", st) is not None:
             fl.add("drops_children")
             fl.add("BUG:rebinds accumulator")
+        if isinstance(st, ast.For) and any(isinstance(x, ast.Call) and isinstance(x.func, ast.Attribute) and x.func.attr == "remove" for x in ast.walk(st)):
+            fl.add("BUG:removes while iterating the live child list")
         if isinstance(st, ast.Raise):
             fl.add("stops")
     return fl
 
 
-def _flags_copy(body: List[ast.stmt], lv: str) -> Set[str]:
+def _flags_copy(body: List[ast.stmt], lv: str, N: Dict[str, str]) -> Set[str]:
+    from ..pat import has, match
+
+    rec, mat = N["rec"], N["materialise"]
     fl: Set[str] = set()
     for st in body:
-        t = norm(st)
-        if "_create_parents()" in t:
+        if has(f"{mat}()", st):
             fl.add("keeps_self")
-        if t == f"_visit({lv})":
+        if match(f"{rec}({lv})", st) is not None:
             fl.add("descends")
-        if t == f"p._add_from({lv})":
+        if match(f"$p._add_from({lv})", st) is not None:
             fl.add("whole_branch")
         if isinstance(st, ast.Raise):
             fl.add("stops")
+        if isinstance(st, (ast.Continue, ast.Break, ast.Return)):
+            fl.add("BUG:leaves the loop body early")
     return fl
 
 
@@ -208,8 +229,17 @@ def sib_filter(ctx: Ctx) -> List[Ob]:
         "skip": set(),
         "stop": {"stops"},
     }
+    from ..pat import find, one
+
+    acc = one(f"$acc.append({li.target.id})", li)
+    keepv = [n for n in iter_own(fi.node) if isinstance(n, ast.Return) and isinstance(n.value, ast.Name)]
+    mats = [g for g in m.func("Node._add_filtered").nested if not g.param_names()]
+    if acc is None and not find(f"$acc.append({li.target.id})", li):
+        raise AnalysisError("Node.filter._visit: deferred-removal list not recognised")
+    names_i = {"rec": fi.name, "keep": keepv[0].value.id if keepv else "?", "acc": (acc[1]["$acc"] if acc else find(f"$acc.append({li.target.id})", li)[0][1]["$acc"])}
+    names_c = {"rec": fc.name, "materialise": mats[0].name if mats else "?"}
     for v in VERDICTS:
-        for f, br, want, flags in ((fi, bi, want_inplace, _flags_inplace), (fc, bc, want_copy, _flags_copy)):
+        for f, br, want, flags, NN in ((fi, bi, want_inplace, _flags_inplace, names_i), (fc, bc, want_copy, _flags_copy, names_c)):
             lv = (li if f is fi else lc).target.id
             if v not in br:
                 if v == "skip" and f is fc and "skip_keep_self" in br:
@@ -219,9 +249,10 @@ def sib_filter(ctx: Ctx) -> List[Ob]:
                                       f"no branch for the `{v}` verdict: it is treated like another one"))
                     continue
             else:
-                got = flags(br[v], lv)
+                got = flags(br[v], lv, NN)
             bugs = {x for x in got if x.startswith("BUG:")}
-            ok = (got - bugs) == want[v]
+            hard = {x for x in bugs if "rebinds" not in x}
+            ok = (got - bugs) == want[v] and not hard
             obs.append(ctx.ob("SIB-FILTER", ["C08"], f, f"verdict {v}: {sorted(want[v]) or ['nothing kept, no descent']}", None, ok,
                               "" if ok else f"branch does {sorted(got - bugs)}; documented: {sorted(want[v])} "
                               "(the in-place and the copying form must give the same result as the user-guide table)"))
@@ -230,7 +261,7 @@ def sib_filter(ctx: Ctx) -> List[Ob]:
     # the predicate is evaluated once per child through the normaliser
     for f, lp in ((fi, li), (fc, lc)):
         calls = [x for st in lp.body for x in ast.walk(st) if isinstance(x, ast.Call) and norm(x.func) == "call_predicate"]
-        ok = len(calls) == 1 and norm(calls[0].args[1]) == lp.target.id
+        ok = len(calls) == 1 and len(calls[0].args) == 2 and norm(calls[0].args[1]) == lp.target.id and norm(calls[0].args[0]) == "predicate"
         obs.append(ctx.ob("SIB-FILTER", ["C08"], f, "predicate evaluated once per child via call_predicate", lp, ok,
                           "" if ok else "each node must get exactly one verdict"))
     # StopTraversal handler at the top of both, outside the recursion
@@ -256,7 +287,9 @@ def sib_filter(ctx: Ctx) -> List[Ob]:
 # --------------------------------------------------------------- COPY-LINEAR
 @rule("COPY-LINEAR", ["C08", "C07"], floor=5, section="3.5")
 def copy_linear(ctx: Ctx) -> List[Ob]:
-    """each source node is copied at most once per visit: in _add_filtered a pending stack entry materialised by _create_parents() is not copied again by a direct add_child(n); _add_from copies each child once and recurses once"""
+    """each source node is copied at most once per visit: in _add_filtered a pending stack entry materialised by _create_parents() is not copied again by a direct add_child(n); the pending entry is popped on every path to the next iteration; _add_from copies each child once and recurses once"""
+    from ..pat import find, has, match, one
+
     obs: List[Ob] = []
     m = ctx.model
     f = m.func("Node._add_filtered._visit")
@@ -265,11 +298,15 @@ def copy_linear(ctx: Ctx) -> List[Ob]:
         raise AnalysisError("_add_filtered._visit: loop not found")
     lp = lps[0]
     lv = lp.target.id
-    pending = any(isinstance(st, ast.Expr) and norm(st.value).startswith("parent_stack.append((False, " + lv) for st in lp.body)
-    cp = m.func("Node._add_filtered._create_parents")
-    idempotent = any(isinstance(n, ast.Assign) and norm(n.targets[0]).startswith("parent_stack[") and norm(n.value).startswith("(True, ")
-                     for n in iter_own(cp.node))
-    obs.append(ctx.ob("COPY-LINEAR", ["C08"], cp, "_create_parents marks materialised entries (idempotent)", None, idempotent,
+    pend = one(f"$ps.append((False, {lv}))", lp)
+    pending = pend is not None
+    ps = pend[1]["$ps"] if pending else "parent_stack"
+    mats = [g for g in m.func("Node._add_filtered").nested if not g.param_names()]
+    if not mats:
+        raise AnalysisError("_add_filtered: the parent materialiser was not found")
+    cp = mats[0]
+    idempotent = has(f"{ps}[$i] = (True, $p)", cp.node)
+    obs.append(ctx.ob("COPY-LINEAR", ["C08"], cp, "the parent materialiser marks materialised entries (idempotent)", None, idempotent,
                       "" if idempotent else "without the (True, node) overwrite every call re-copies all pending ancestors"))
     branches = _verdict_branches(ctx, f, lp)
     for v, body in branches.items():
@@ -278,21 +315,35 @@ def copy_linear(ctx: Ctx) -> List[Ob]:
         for st in body:
             for x in ast.walk(st):
                 if isinstance(x, ast.Call):
-                    t = norm(x)
-                    if t == "_create_parents()" and pending:
+                    if match(f"{cp.name}()", x) is not None and pending:
                         copies += 1
-                        sites.append(t)
+                        sites.append(f"{cp.name}()")
                     elif isinstance(x.func, ast.Attribute) and x.func.attr in ("add_child", "add", "append_child") and x.args and norm(x.args[0]) == lv:
                         copies += 1
-                        sites.append(t)
+                        sites.append(f".{x.func.attr}({lv})")
         ok = copies <= 1
-        obs.append(ctx.ob("COPY-LINEAR", ["C08", "C07"], f, f"verdict {v}: node copied at most once ({' + '.join(sites) or 'no copy'})", None, ok,
-                          "" if ok else f"`{lv}` is already on the pending stack and is materialised by _create_parents(); "
+        obs.append(ctx.ob("COPY-LINEAR", ["C08", "C07"], f, f"verdict {v}: the visited node is copied at most once", None, ok,
+                          "" if ok else f"copies: {' + '.join(sites)}: `{lv}` is already on the pending stack and is materialised by {cp.name}(); "
                           f"`{sites[-1]}` copies it a second time below its own copy: every accepted node appears twice"))
-    ok = any(isinstance(st, ast.Expr) and norm(st.value) == "parent_stack.pop()" for st in lp.body[-1:])
-    obs.append(ctx.ob("COPY-LINEAR", ["C08"], f, "the pending entry is popped at the end of every iteration", lp, ok,
-                      "" if ok else "a stale stack entry would be materialised below the wrong parent"))
+    # the pending entry is popped on every normal path from the push to the next iteration / the end of the loop
+    cfg = ctx.cfg(f)
+    ok = False
+    path = None
+    if pending:
+        push = cfg.stmt_node_of(pend[0], m.parent_of)
+        hdr = cfg.node_for(lp)
+        pops = [cfg.stmt_node_of(x, m.parent_of) for x, _ in find(f"{ps}.pop()", lp)]
+        if push is not None and hdr is not None and pops:
+            p_ = cfg.find_path(push, hdr, avoid=lambda n: any(n is q for q in pops), strict=True)
+            ok = p_ is None
+            if p_ is not None:
+                from ..cfg import describe_path
+
+                path = describe_path(p_)
+    obs.append(ctx.ob("COPY-LINEAR", ["C08"], f, "the pending entry is popped on every path to the next iteration", lp, ok,
+                      "" if ok else "a stale stack entry stays behind: later accepted nodes are materialised below the wrong parent", path))
     g = m.func("Node._add_from")
+    src = [p for p in g.positional_params() if p != g.self_name][0]
     lps = [n for n in iter_own(g.node) if isinstance(n, ast.For) and isinstance(n.target, ast.Name)]
     if lps:
         lp = lps[0]
@@ -300,7 +351,7 @@ def copy_linear(ctx: Ctx) -> List[Ob]:
         adds = [x for st in lp.body for x in ast.walk(st) if isinstance(x, ast.Call) and isinstance(x.func, ast.Attribute)
                 and x.func.attr in ("add_child", "add", "append_child") and x.args and lv in norm(x.args[0])]
         recs = [x for st in lp.body for x in ast.walk(st) if isinstance(x, ast.Call) and isinstance(x.func, ast.Attribute) and x.func.attr == "_add_from"]
-        ok = len(adds) == 1 and len(recs) == 1 and norm(recs[0].args[0]) == lv and norm(lp.iter) in ("other.children", "other._children")
+        ok = len(adds) == 1 and len(recs) == 1 and norm(recs[0].args[0]) == lv and norm(lp.iter) in (f"{src}.children", f"{src}._children")
         obs.append(ctx.ob("COPY-LINEAR", ["C07"], g, "_add_from: one copy and one recursion per source child, in child order", lp, ok,
                           "" if ok else f"{len(adds)} copies / {len(recs)} recursions per child"))
     return obs
@@ -313,7 +364,7 @@ def _mentions(e: Optional[ast.AST], texts: Set[str]) -> bool:
     return any(norm(x) in texts for x in ast.walk(e))
 
 
-@rule("COPY-ID", ["C07", "C05"], floor=3, section="3.5")
+@rule("COPY-ID", ["C07", "C05", "C02"], floor=3, section="3.5")
 def copy_id(ctx: Ctx) -> List[Ob]:
     """wherever a node is created from a source node's data, the source's data_id travels with it (an explicit id is not recomputed from hash(data)); typed copies carry the source's kind"""
     obs: List[Ob] = []
@@ -345,7 +396,7 @@ def copy_id(ctx: Ctx) -> List[Ob]:
                 r = env.reaching(f, c, a_id.id)
                 vals = r[0] if r is not None else [b.expr for b in env.scope(f).resolve(a_id.id)[1] if b.kind == "val"]
                 ok = any(_mentions(v, idtexts) for v in vals)
-            obs.append(ctx.ob("COPY-ID", ["C07", "C05"], f, f"{norm(c.func)}({s}.data ...): data_id carries {s}._data_id", c, ok,
+            obs.append(ctx.ob("COPY-ID", ["C07", "C05", "C02"], f, f"copy of {s}.data carries {s}._data_id", c, ok,
                               "" if ok else f"the copy of `{s}` gets data_id={norm(a_id) if a_id is not None else 'None'} -> recomputed by calc_data_id(data): "
                               "a node with an explicit data_id is copied under hash(data) and leaves its clone group"))
             # kind for typed code
@@ -363,7 +414,7 @@ def copy_id(ctx: Ctx) -> List[Ob]:
                 if not okk and isinstance(a_kind, ast.Name):
                     vals = [b.expr for b in env.scope(f).resolve(a_kind.id)[1] if b.kind == "val"]
                     okk = any(_mentions(v, kt) for v in vals)
-                obs.append(ctx.ob("COPY-KIND", ["C07"], f, f"{norm(c.func)}({s}.data ...): kind carries {s}.kind", c, okk,
+                obs.append(ctx.ob("COPY-KIND", ["C07"], f, f"copy of {s}.data carries {s}.kind", c, okk,
                                   "" if okk else f"typed copy of `{s}` gets kind={norm(a_kind) if a_kind is not None else 'default'}: "
                                   "copied nodes lose their kind (become DEFAULT_CHILD_TYPE)"))
                 obs[-1].rule = "COPY-ID"
